@@ -1,19 +1,368 @@
 package main
 
 import (
+	"encoding/json"
+	"flag"
 	"fmt"
+	"os"
+	"path/filepath"
+	"sort"
+	"strconv"
+	"strings"
+	"time"
+
 	"golang.org/x/tools/go/packages"
 	"golang.org/x/tools/go/ssa"
 	"golang.org/x/tools/go/ssa/ssautil"
 )
 
-func main() {
-	cfg := &packages.Config{Mode: packages.LoadAllSyntax, Dir: "/repo", BuildFlags: []string{"-tags=verif"}}
+type loaded struct {
+	prog      *ssa.Program
+	spkg      *ssa.Package
+	pkg       *packages.Package
+	contracts *Contracts
+	funcs     map[string]*ssa.Function
+}
+
+func load(repo string) (*loaded, error) {
+	cfg := &packages.Config{Mode: packages.LoadAllSyntax, Dir: repo, BuildFlags: []string{"-tags=verif"},
+		Env: append(os.Environ(), "GOFLAGS=-mod=mod", "GOPROXY=off", "GOSUMDB=off", "GOTOOLCHAIN=local")}
 	pkgs, err := packages.Load(cfg, ".")
 	if err != nil {
-		panic(err)
+		return nil, err
+	}
+	if len(pkgs) != 1 {
+		return nil, fmt.Errorf("expected one package, got %d", len(pkgs))
+	}
+	if len(pkgs[0].Errors) > 0 {
+		return nil, fmt.Errorf("package errors: %v", pkgs[0].Errors)
 	}
 	prog, spkgs := ssautil.AllPackages(pkgs, ssa.BuilderMode(0))
 	prog.Build()
-	fmt.Println(len(spkgs), spkgs[0].Pkg.Path(), len(spkgs[0].Members))
+	l := &loaded{prog: prog, spkg: spkgs[0], pkg: pkgs[0], funcs: map[string]*ssa.Function{}}
+	for fn := range ssautil.AllFunctions(prog) {
+		if fn.Pkg == l.spkg || (fn.Pkg == nil && fn.Parent() != nil && fn.Parent().Pkg == l.spkg) {
+			l.funcs[fnKey(fn)] = fn
+		} else if fn.Pkg == nil && fn.Synthetic != "" {
+			// wrappers are keyed too (rarely needed)
+			if _, ok := l.funcs[fnKey(fn)]; !ok {
+				l.funcs[fnKey(fn)] = fn
+			}
+		}
+	}
+	c, err := loadContracts(filepath.Join(repo, "verif_contracts.go"))
+	if err != nil {
+		return nil, err
+	}
+	l.contracts = c
+	return l, nil
 }
+
+func hasProp(props []string, p string) bool {
+	for _, x := range props {
+		if x == p {
+			return true
+		}
+	}
+	return false
+}
+
+func contractMentions(c *FuncContract, prop string) bool {
+	if hasProp(c.Props, prop) {
+		return true
+	}
+	for _, cl := range c.Clauses {
+		if hasProp(cl.Props, prop) {
+			return true
+		}
+	}
+	return false
+}
+
+func main() {
+	repo := flag.String("repo", "/repo", "repository")
+	prop := flag.String("prop", "", "property id")
+	tier := flag.String("tier", "quick", "quick|thorough")
+	fnFlag := flag.String("fn", "", "verify a single function (debug)")
+	work := flag.String("work", "/verif/work", "scratch directory for SMT files")
+	evidence := flag.String("evidence", "", "evidence file to write")
+	verbose := flag.Bool("v", false, "verbose")
+	flag.Parse()
+	t0 := time.Now()
+	seed, _ := strconv.Atoi(os.Getenv("VERIF_SEED"))
+	l, err := load(*repo)
+	if err != nil {
+		fmt.Fprintln(os.Stderr, "govc: load failed:", err)
+		os.Exit(2)
+	}
+	timeout := 10
+	if *tier == "thorough" {
+		timeout = 60
+	}
+	if *fnFlag != "" {
+		fn := l.funcs[*fnFlag]
+		if fn == nil {
+			fmt.Fprintln(os.Stderr, "no such function; known:")
+			var ks []string
+			for k := range l.funcs {
+				ks = append(ks, k)
+			}
+			sort.Strings(ks)
+			for _, k := range ks {
+				fmt.Fprintln(os.Stderr, "  ", k)
+			}
+			os.Exit(2)
+		}
+		r := verifyFunc(l.prog, l.spkg, l.contracts, fn, l.contracts.Funcs[*fnFlag], verifyOpts{})
+		dir := filepath.Join(*work, "fn")
+		os.RemoveAll(dir)
+		dischargeAll(r.Obls, dir, timeout, 14)
+		printResult(r, true)
+		return
+	}
+	if *prop == "" {
+		fmt.Fprintln(os.Stderr, "govc: -prop or -fn required")
+		os.Exit(2)
+	}
+	run := runProperty(l, *prop, *tier, timeout, filepath.Join(*work, *prop), *verbose)
+	run.Seed = seed
+	run.Wall = time.Since(t0).Seconds()
+	if *evidence != "" {
+		if err := writeEvidence(run, *evidence); err != nil {
+			fmt.Fprintln(os.Stderr, "govc: evidence:", err)
+			os.Exit(2)
+		}
+	}
+	os.Exit(run.report())
+}
+
+func printResult(r *FuncResult, verbose bool) {
+	if r.Unsup != "" {
+		fmt.Printf("FUNC %s: OUT OF SUBSET: %s\n", r.Key, r.Unsup)
+	}
+	for _, w := range r.Warnings {
+		fmt.Printf("  warning: %s\n", w)
+	}
+	for _, o := range r.Obls {
+		if verbose || o.Status != "proved" {
+			fmt.Printf("  %-8s %-70s %s %.2fs %s\n", o.Status, o.Name, o.Solver, o.Time, o.Pos)
+			if o.Status != "proved" && o.Src != "" {
+				fmt.Printf("           clause: %s\n", o.Src)
+			}
+		}
+	}
+}
+
+// ---------------------------------------------------------------------------
+
+type PropRun struct {
+	Prop     string
+	Tier     string
+	Seed     int
+	Wall     float64
+	Funcs    []*FuncResult
+	Extra    []*Obligation // obligations from other back ends (FRAME, lemmas)
+	Notes    []string
+	Trusted  map[string]bool
+	Bounded  []string
+	WorkDir  string
+	Known    []knownHit
+	Failures []*Obligation
+}
+
+type knownHit struct {
+	Line string
+}
+
+func (p *PropRun) all() []*Obligation {
+	var out []*Obligation
+	for _, f := range p.Funcs {
+		for _, o := range f.Obls {
+			if hasProp(o.Props, p.Prop) {
+				out = append(out, o)
+			}
+		}
+	}
+	out = append(out, p.Extra...)
+	return out
+}
+
+func runProperty(l *loaded, prop, tier string, timeout int, work string, verbose bool) *PropRun {
+	run := &PropRun{Prop: prop, Tier: tier, Trusted: map[string]bool{}, WorkDir: work}
+	os.RemoveAll(work)
+	os.MkdirAll(work, 0o755)
+	var keys []string
+	for _, k := range l.contracts.Order {
+		if contractMentions(l.contracts.Funcs[k], prop) {
+			keys = append(keys, k)
+		}
+	}
+	var obls []*Obligation
+	for _, k := range keys {
+		c := l.contracts.Funcs[k]
+		if c.Trusted {
+			run.Trusted["assumed contract (body not verified): "+k+" — "+c.Why] = true
+			continue
+		}
+		fn := l.funcs[k]
+		if fn == nil {
+			// contract for a function that no longer exists: the contract cannot bind
+			o := &Obligation{Name: "bind/" + k, Kind: "bind", Fn: k, Props: []string{prop}, Status: "failed", Src: "contract names a function that does not exist in /repo"}
+			run.Extra = append(run.Extra, o)
+			continue
+		}
+		r := verifyFunc(l.prog, l.spkg, l.contracts, fn, c, verifyOpts{})
+		run.Funcs = append(run.Funcs, r)
+		for _, t := range r.Trusted {
+			run.Trusted[t] = true
+		}
+		if r.Unsup != "" {
+			o := &Obligation{Name: "subset/" + k, Kind: "subset", Fn: k, Props: []string{prop}, Status: "unknown", Src: "function left the supported subset: " + r.Unsup}
+			run.Extra = append(run.Extra, o)
+		}
+		for _, o := range r.Obls {
+			if hasProp(o.Props, prop) {
+				obls = append(obls, o)
+			}
+		}
+	}
+	// property-specific additional back ends
+	runExtras(l, run, prop, tier)
+	dischargeAll(obls, work, timeout, 14)
+	if verbose {
+		for _, r := range run.Funcs {
+			printResult(r, true)
+		}
+	}
+	return run
+}
+
+// report prints the verdict lines and returns the exit code.
+func (p *PropRun) report() int {
+	all := p.all()
+	nproved := 0
+	var bad []*Obligation
+	for _, o := range all {
+		if o.Status == "proved" {
+			nproved++
+		} else {
+			bad = append(bad, o)
+		}
+	}
+	fmt.Printf("property %s tier=%s: %d obligations, %d discharged, %d functions under contract, %.1fs\n", p.Prop, p.Tier, len(all), nproved, len(p.Funcs), p.Wall)
+	for _, k := range p.Known {
+		fmt.Println(k.Line)
+	}
+	if len(all) == 0 {
+		fmt.Printf("VIOLATION property=%s replay=%s no-failing-input-found\n", p.Prop, p.writeReplay(&Obligation{Name: "vacuity/no-obligations", Src: "no obligation was generated for this property: the contracts no longer bind to the code"}))
+		return 1
+	}
+	if len(bad) == 0 {
+		return 0
+	}
+	for _, o := range bad {
+		path := p.writeReplay(o)
+		suffix := " no-failing-input-found"
+		if o.Status == "failed" && o.replayConfirmed {
+			suffix = ""
+		}
+		fmt.Printf("  %s %s (%s) %s\n", o.Status, o.Name, o.Pos, o.Src)
+		fmt.Printf("VIOLATION property=%s replay=%s%s\n", p.Prop, path, suffix)
+	}
+	return 1
+}
+
+func (p *PropRun) writeReplay(o *Obligation) string {
+	dir := filepath.Join("/verif/replays", p.Prop)
+	os.MkdirAll(dir, 0o755)
+	path := filepath.Join(dir, sanitize(o.Name)+".txt")
+	var sb strings.Builder
+	fmt.Fprintf(&sb, "property: %s\nobligation: %s\nkind: %s\nfunction: %s\nposition: %s\nstatus: %s (solver %s, %.2fs)\nclause: %s\n", p.Prop, o.Name, o.Kind, o.Fn, o.Pos, o.Status, o.Solver, o.Time, o.Src)
+	if o.replayNote != "" {
+		fmt.Fprintf(&sb, "replay: %s\n", o.replayNote)
+	}
+	fmt.Fprintf(&sb, "\n--- solver output ---\n%s\n", truncate(o.Model, 20000))
+	os.WriteFile(path, []byte(sb.String()), 0o644)
+	return path
+}
+
+func truncate(s string, n int) string {
+	if len(s) > n {
+		return s[:n] + "\n...[truncated]"
+	}
+	return s
+}
+
+func writeEvidence(p *PropRun, path string) error {
+	all := p.all()
+	nproved := 0
+	solverTime := 0.0
+	bySolver := map[string]int{}
+	byKind := map[string]int{}
+	var samples []interface{}
+	for _, o := range all {
+		if o.Status == "proved" {
+			nproved++
+		}
+		solverTime += o.Time
+		bySolver[o.Solver]++
+		byKind[o.Kind]++
+	}
+	sort.Slice(all, func(i, j int) bool { return all[i].Name < all[j].Name })
+	for i, o := range all {
+		if i%((len(all)/8)+1) == 0 {
+			samples = append(samples, map[string]interface{}{"obligation": o.Name, "kind": o.Kind, "clause": o.Src, "status": o.Status, "solver": o.Solver, "time_s": round3(o.Time), "position": o.Pos})
+		}
+	}
+	var fns []string
+	var unsup []string
+	for _, f := range p.Funcs {
+		fns = append(fns, f.Key)
+		if f.Unsup != "" {
+			unsup = append(unsup, f.Key+": "+f.Unsup)
+		}
+	}
+	var trusted []string
+	for k := range p.Trusted {
+		trusted = append(trusted, k)
+	}
+	sort.Strings(trusted)
+	var oblList []interface{}
+	for _, o := range all {
+		oblList = append(oblList, map[string]interface{}{"name": o.Name, "status": o.Status, "solver": o.Solver, "time_s": round3(o.Time)})
+	}
+	violations := len(all) - nproved
+	ev := map[string]interface{}{
+		"property_id": p.Prop,
+		"tier":        p.Tier,
+		"seed":        p.Seed,
+		"level":       "proof",
+		"coverage": map[string]interface{}{
+			"obligations":              len(all),
+			"discharged":               nproved,
+			"checker_cmd":              fmt.Sprintf("/verif/bin/govc -repo /repo -prop %s -tier %s (VCs from go/ssa of the working tree + /repo/verif_contracts.go; z3-new 5.1.0 first, z3 4.8.12 and cvc5 1.0 raced on unknown)", p.Prop, p.Tier),
+			"trusted_base":             trusted,
+			"functions_under_contract": fns,
+			"functions_out_of_subset":  unsup,
+			"obligations_by_kind":      byKind,
+			"obligations_by_solver":    bySolver,
+			"solver_time_s":            round3(solverTime),
+			"samples":                  samples,
+			"obligation_list":          oblList,
+			"bounded_stand_ins":        p.Bounded,
+			"notes":                    p.Notes,
+		},
+		"assumptions": append([]string{
+			"integers are mathematical (no overflow obligations); floats are reals; strings are SMT strings (valid Unicode)",
+			"panics are obligations, not control flow; recover() returns nil on modelled paths",
+			"soundness of the VC generator itself (go/ssa translation, heap model) and of the SMT solvers",
+		}, trusted...),
+		"wall_s":     round3(p.Wall),
+		"violations": violations,
+	}
+	os.MkdirAll(filepath.Dir(path), 0o755)
+	b, _ := json.MarshalIndent(ev, "", " ")
+	return os.WriteFile(path, b, 0o644)
+}
+
+func round3(f float64) float64 { return float64(int(f*1000+0.5)) / 1000 }
